@@ -52,7 +52,7 @@ Checks ==
       b == Parse(Respaced)
   IN [RoundTripRepaired |-> RepairedOK(a) /\ RepairedOK(g),
       RoundTripCode |-> CodeOK(a) /\ CodeOK(g),
-      Separate |-> Len(T) = Len(toks) /\ \A i \in 1..Len(T) : T[i].s = toks[i],
+      Separate |-> Len(T) = Len(toks) + 1 /\ \A i \in 1..Len(toks) : T[i].s = toks[i],
       TokensOnly |-> a.ok = b.ok /\ (a.ok => a.n = b.n)]
 
 AllInvariants == LET c == Checks IN c.RoundTripRepaired /\ c.RoundTripCode /\ c.Separate /\ c.TokensOnly
